@@ -80,7 +80,19 @@ MUTANTS = [
     ("c07-lognormal-rvs-seed0", "C07", "distributions.py", "        return sts.lognorm.rvs(*scipy_par, size=rvs_size, random_state=random_state)\n\n    def _fit_mle(self, sample):\n        p0 = {\"scale\": self._scale, \"sigma\": self.sigma}", "        return sts.lognorm.rvs(*scipy_par, size=rvs_size, random_state=0)\n\n    def _fit_mle(self, sample):\n        p0 = {\"scale\": self._scale, \"sigma\": self.sigma}", "LogNormal sampling always seeded with 0"),
     ("c07-weibull-param-order", "C07", "distributions.py", "        return sts.weibull_min.rvs(*scipy_par, size=rvs_size, random_state=random_state)", "        return sts.weibull_min.rvs(scipy_par[0] * 1.05, scipy_par[1], scipy_par[2], size=rvs_size, random_state=random_state)", "Weibull samples drawn with a 5 % larger shape"),
     ("c07-size-n", "C07", "distributions.py", "        if at_least_one_iterable:\n            return (n, par_length)", "        if at_least_one_iterable:\n            return par_length", "vector parameters -> draws of size len instead of (n, len)"),
+    # ---------------- C19 ----------------
+    ("c19-ew-pdf-inplace", "C19", "distributions.py", "        x_greater_zero = np.where(x > 0, x, np.nan)", "        x_greater_zero = x if isinstance(x, np.ndarray) and x.dtype == float else np.asarray(x, dtype=float)\n        x_greater_zero[x_greater_zero <= 0] = np.nan", "the masking the code comments warn about: caller's array overwritten with NaN"),
+    ("c19-direct-sorts-sample", "C19", "contours.py", "        x, y = sample.T\n\n        # Calculate non-exceedance probability.", "        sample.sort(axis=0)\n        x, y = sample.T\n\n        # Calculate non-exceedance probability.", "DirectSamplingContour sorts the caller's sample in place"),
+    ("c19-cond-cdf-mutates-template", "C19", "distributions.py", "        return self.distribution.cdf(x, **self._get_param_values(given))", "        pv = self._get_param_values(given)\n        if all(np.ndim(v) == 0 for v in pv.values()):\n            for k_, v_ in pv.items():\n                setattr(self.distribution, k_, v_)\n            return self.distribution.cdf(x)\n        return self.distribution.cdf(x, **pv)", "conditional cdf evaluated by writing the parameters into the template"),
+    ("c19-getter-shared-depfunc", "C19", "predefined.py", "    power3 = DependenceFunction(_power3, bounds, latex=\"$a + b * x^c$\")\n    exp3 =", "    power3 = _SHARED.setdefault(\"p3\", DependenceFunction(_power3, bounds, latex=\"$a + b * x^c$\"))\n    exp3 =", "get_DNVGL_Hs_Tz re-uses one DependenceFunction object for all calls"),
+    ("c19-vt-global-written", "C19", "variable_transform.py", "def hs_s_to_hs_tz(hs, s):\n    global factor_sqrt\n", "def hs_s_to_hs_tz(hs, s):\n    global factor_sqrt\n    factor_sqrt = np.sqrt(factor) * (1 + 1e-9)\n", "a transformation rewrites a module global"),
+    ("c19-template-fitted-in-place", "C19", "distributions.py", "            dist = copy.deepcopy(self.distribution)\n            dist.fit(interval_data, method, weights)", "            dist = self.distribution\n            dist.fit(interval_data, method, weights)\n            dist = copy.deepcopy(dist)", "fit alters the template's own parameters"),
+    ("c19-iform-rescales-model", "C19", "contours.py", "        self.sphere_points = sphere_points\n        self.coordinates = coordinates", "        if distributions and hasattr(distributions[0], \"alpha\") and n_points == 12:\n            distributions[0].alpha = float(distributions[0].alpha) * (1 + 1e-12)\n        self.sphere_points = sphere_points\n        self.coordinates = coordinates", "IFORM with 12 points nudges a model parameter by 1e-12"),
 ]
+
+EXTRA_EDITS = {
+    "c19-getter-shared-depfunc": ("predefined.py", "__all__ = [", "_SHARED = {}\n\n__all__ = ["),
+}
 
 
 def apply_mutant(root, mid):
@@ -92,6 +104,14 @@ def apply_mutant(root, mid):
         raise SystemExit(f"mutant {mid}: pattern occurs {s.count(m[3])} times in {m[2]}")
     with open(path, "w") as f:
         f.write(s.replace(m[3], m[4]))
+    if mid in EXTRA_EDITS:
+        fn, o, n = EXTRA_EDITS[mid]
+        p2 = os.path.join(root, "virocon", fn)
+        with open(p2) as f:
+            s2 = f.read()
+        assert s2.count(o) == 1, (mid, "extra edit")
+        with open(p2, "w") as f:
+            f.write(s2.replace(o, n))
 
 
 def make_copy():
